@@ -161,6 +161,10 @@ theorem add_eq (v : Variant) (s : State) (k : Nat) (e : Entry) :
 @[simp] theorem fired_cb (i t g : Nat) (r : List Event) : fired (.callback i t g :: r) = i :: fired r := rfl
 @[simp] theorem fired_eb (i : Nat) (w : Why) (r : List Event) : fired (.errback i w :: r) = i :: fired r := rfl
 @[simp] theorem fired_exc (x : PyErr) (r : List Event) : fired (.exc x :: r) = fired r := rfl
+@[simp] theorem fired_tclose (r : List Event) : fired (.tclose :: r) = fired r := rfl
+@[simp] theorem sents_tclose (r : List Event) : sents (.tclose :: r) = sents r := rfl
+@[simp] theorem cbs_tclose (r : List Event) : cbs (.tclose :: r) = cbs r := rfl
+@[simp] theorem served_tclose (r : List Event) : served (.tclose :: r) = served r := rfl
 @[simp] theorem sents_nil : sents [] = [] := rfl
 @[simp] theorem sents_sent (i t : Nat) (r : List Event) : sents (.sent i t :: r) = (i, t) :: sents r := rfl
 @[simp] theorem sents_cb (i t g : Nat) (r : List Event) : sents (.callback i t g :: r) = sents r := rfl
@@ -187,6 +191,7 @@ theorem served_sub_fired {evs : List Event} {i : Nat} (h : i ∈ served evs) : i
   | callback a b c => simpa [Event.servedId, Event.firedId] using hs
   | errback a w => cases w <;> simp_all [Event.servedId, Event.firedId]
   | exc x => simp [Event.servedId] at hs
+  | tclose => simp [Event.servedId] at hs
 
 /-! ### the invariant of reachable (state, trace) pairs -/
 
@@ -215,6 +220,23 @@ theorem inv_setConnected {v : Variant} {s : State} {evs : List Event} (b : Bool)
     Inv v { s with connected := b } evs := by
   obtain ⟨h1, h2, h3, h4, h5, h6, h7, h8, h9, h10, h11, h12⟩ := h
   exact ⟨h1, h2, h3, h4, h5, h6, h7, h8, h9, h10, h11, h12⟩
+
+/-- `close()`: only the flag changes; `transport.close()` is not an event any observation looks at -/
+theorem inv_close {v : Variant} {s : State} {evs : List Event} (hc : Bool) (h : Inv v s evs) :
+    Inv v (close s hc).1 (evs ++ (close s hc).2) := by
+  have h' := inv_setConnected false h
+  cases hc with
+  | false => simpa [close] using h'
+  | true =>
+    obtain ⟨h1, h2, h3, h4, h5, h6, h7, h8, h9, h10, h11, h12⟩ := h'
+    simp only [close, if_true]
+    refine ⟨h1, by simpa using h2, h3, by simpa using h4, h5, by simpa using h6, h7, by simpa using h8, h9,
+      by simpa using h10, by simpa using h11, ?_⟩
+    intro e he
+    simp only [List.mem_append, List.mem_cons, List.mem_nil_iff, or_false] at he
+    rcases he with he | he
+    · exact h12 e he
+    · subst he; rfl
 
 theorem inv_bump_fail {v : Variant} {s : State} {evs : List Event} (h : Inv v s evs) :
     Inv v (bump s) (evs ++ [.sent s.nextId ((s.tid + 1) % 65536), .errback s.nextId .notConnected]) := by
@@ -791,6 +813,7 @@ theorem step_flag {v : Variant} (s : State) (op : Op) :
   | connectionLost =>
     simp only [step, Spec.connAfter]
     exact lostLoop_flag _ _ rfl
+  | close hc => rfl
 
 
 theorem inv_step {v : Variant} {s : State} {evs : List Event} (op : Op) (h : Inv v s evs) :
@@ -800,6 +823,7 @@ theorem inv_step {v : Variant} {s : State} {evs : List Event} (op : Op) (h : Inv
   | execute r => exact inv_execute r h
   | reply t tag => exact inv_reply t tag h
   | connectionLost => exact (connectionLost_spec h).1
+  | close hc => exact inv_close hc h
 
 theorem inv_run {v : Variant} : ∀ (ops : List Op) {s : State} {evs : List Event}, Inv v s evs →
     Inv v (run v s ops).1 (evs ++ (run v s ops).2) := by
@@ -1021,6 +1045,10 @@ theorem complete_step {v : Variant} {s : State} {evs : List Event} (op : Op) (h 
   | execute r => exact complete_execute r hc (fun _ => hf)
   | reply t tag => exact complete_reply t tag hc hf
   | connectionLost => exact complete_connectionLost h hc
+  | close b =>
+    intro i hi
+    have := hc i hi
+    cases b <;> simpa [step, close, pendingIds] using this
 
 /-! ### deliveries happen only in `reply` -/
 
@@ -1071,6 +1099,7 @@ theorem arrived_step {v : Variant} (s : State) (op : Op) : Spec.Arrived op (step
   | connectionMade => simp [Spec.Arrived, step]
   | execute r => simp [Spec.Arrived, step, cbs_execute]
   | connectionLost => simp [Spec.Arrived, step, connectionLost, cbs_lostLoop]
+  | close b => cases b <;> simp [Spec.Arrived, step, close]
   | reply t tag =>
     simp only [Spec.Arrived, step, reply]
     split
@@ -1097,6 +1126,7 @@ theorem unsolicited_step {v : Variant} {s : State} {pre : List Event} (h : Inv v
   | connectionMade => trivial
   | execute r => trivial
   | connectionLost => trivial
+  | close b => trivial
   | reply t tag =>
     simp only [Spec.Unsolicited, step]
     intro hns
@@ -1130,6 +1160,7 @@ theorem failsWhenDown_step {v : Variant} {s : State} {pre : List Event} (h : Inv
     simp only [Spec.down, Bool.not_eq_true'] at hd
     exact (execute_down_spec r s hd).2.2.1
   | connectionLost => exact (connectionLost_spec h).2.2.2.1
+  | close b => intro p hp; cases b <;> simp [step, close] at hp
   | reply t tag =>
     simp only [Spec.down, Bool.not_eq_true'] at hd
     simp only [step, reply]
@@ -1201,6 +1232,7 @@ theorem delivered_step {v : Variant} {s : State} {pre : List Event} (h : Inv v s
   | connectionMade => trivial
   | execute r => trivial
   | connectionLost => trivial
+  | close b => trivial
   | reply t tag =>
     cases v with
     | dict =>
@@ -1262,6 +1294,7 @@ theorem lostFails_step {v : Variant} {s : State} {pre : List Event} (h : Inv v s
   | connectionMade => trivial
   | execute r => trivial
   | reply t tag => trivial
+  | close b => trivial
   | connectionLost =>
     simp only [Spec.LostFails, step]
     intro p hp
@@ -1498,51 +1531,87 @@ theorem reply_removes_key {s : State} (hn : (keys s).Nodup) (t tag : Nat) (ht : 
 
 /-! ### after the loss: histories without a new `connectionMade` -/
 
-theorem down_step {v : Variant} {s : State} (hc : s.connected = false) (hp : s.pending = []) (op : Op)
-    (hop : op ≠ .connectionMade) :
-    (step v s op).1.connected = false ∧ (step v s op).1.pending = [] ∧ DownOK (step v s op).2 ∧
-    s.nextId ≤ (step v s op).1.nextId ∧
+/-- one operation other than `connectionMade` while the flag is down (after a loss, or after a local
+    `close()` with deferreds still pending): the flag stays down, nothing is registered, every request written
+    fails with "not connected" -/
+theorem down_step {v : Variant} {s : State} {evs : List Event} (h : Inv v s evs) (hc : s.connected = false)
+    (op : Op) (hop : op ≠ .connectionMade) :
+    (step v s op).1.connected = false ∧ (∀ p ∈ (step v s op).1.pending, p ∈ s.pending) ∧
+    DownOK (step v s op).2 ∧ s.nextId ≤ (step v s op).1.nextId ∧
     (∀ i, s.nextId ≤ i → i < (step v s op).1.nextId → Event.errback i .notConnected ∈ (step v s op).2) := by
   cases op with
   | connectionMade => exact absurd rfl hop
   | execute r =>
     obtain ⟨h1, h2, h3, h4, h5⟩ := execute_down_spec (v := v) r s hc
-    exact ⟨h1, h2.trans hp, h3, Nat.le_of_lt h4, h5⟩
-  | reply t tag =>
-    have hg : (get v s t).1 = none := by
-      cases v with
-      | dict => simp [get, hp, dictGet]
-      | fifo => simp [get, hp]
-    simp only [step, reply_unsolicited tag hg]
-    refine ⟨hc, hp, ?_, Nat.le_refl _, ?_⟩
-    · intro p hp'; simp at hp'
-    · intro i h1 h2; omega
+    exact ⟨h1, fun p hp => by rw [show (step v s (.execute r)).1.pending = s.pending from h2] at hp; exact hp,
+      h3, Nat.le_of_lt h4, h5⟩
+  | close b =>
+    refine ⟨rfl, fun p hp => hp, ?_, Nat.le_refl _, ?_⟩
+    · intro p hp; cases b <;> simp [step, close] at hp
+    · intro i h1 h2; simp only [step, close] at h2; omega
   | connectionLost =>
-    have : step v s .connectionLost = ({ s with connected := false }, []) := by
-      simp [step, connectionLost, keys, hp, lostLoop]
-    rw [this]
-    refine ⟨rfl, hp, ?_, Nat.le_refl _, ?_⟩
-    · intro p hp'; simp at hp'
-    · intro i h1 h2; simp only at h2; omega
+    obtain ⟨_, c2, c3, c4, _, c6, c7⟩ := connectionLost_spec h
+    refine ⟨c2, ?_, c4, c6, c7⟩
+    intro p hp
+    rw [show (step v s .connectionLost).1.pending = [] from c3] at hp
+    simp at hp
+  | reply t tag =>
+    simp only [step]
+    unfold reply
+    cases hg : (get v s t).1 with
+    | none =>
+      have : get v s t = (none, s) := Prod.ext hg (get_none hg)
+      rw [this]
+      refine ⟨hc, fun p hp => hp, ?_, Nat.le_refl _, ?_⟩
+      · intro p hp; simp at hp
+      · intro i h1 h2; simp only at h2; omega
+    | some e =>
+      obtain ⟨l1, k', l2, hp, hs', _, _⟩ := get_some hg
+      have : get v s t = (some e, { s with pending := l1 ++ l2 }) := Prod.ext hg hs'
+      rw [this]
+      have hsub : ∀ p ∈ l1 ++ l2, p ∈ s.pending := by
+        intro p hp'
+        rw [hp]; simp only [List.mem_append, List.mem_cons] at hp' ⊢
+        rcases hp' with hp' | hp'
+        · exact Or.inl hp'
+        · exact Or.inr (Or.inr hp')
+      simp only
+      unfold fireOk
+      split
+      · refine ⟨hc, hsub, ?_, Nat.le_refl _, ?_⟩
+        · intro p hp'; simp at hp'
+        · intro i h1 h2; simp only at h2; omega
+      · rename_i k _
+        obtain ⟨e1, e2, e3, e4, e5⟩ := execute_down_spec (v := v) k { s with pending := l1 ++ l2 } hc
+        refine ⟨e1, ?_, ?_, by simp only at e4 ⊢; omega, ?_⟩
+        · intro p hp'
+          simp only at hp'
+          rw [e2] at hp'
+          exact hsub p hp'
+        · intro p hp'
+          simp only [sents_cb] at hp'
+          exact List.mem_cons_of_mem _ (e3 p hp')
+        · intro i h1 h2
+          exact List.mem_cons_of_mem _ (e5 i h1 h2)
 
-theorem down_run {v : Variant} : ∀ (ops : List Op) (s : State), s.connected = false → s.pending = [] →
-    (∀ op ∈ ops, op ≠ .connectionMade) →
-    (run v s ops).1.connected = false ∧ (run v s ops).1.pending = [] ∧ DownOK (run v s ops).2 ∧
-    s.nextId ≤ (run v s ops).1.nextId ∧
+theorem down_run {v : Variant} : ∀ (ops : List Op) (s : State) (evs : List Event), Inv v s evs →
+    s.connected = false → (∀ op ∈ ops, op ≠ .connectionMade) →
+    (run v s ops).1.connected = false ∧ (∀ p ∈ (run v s ops).1.pending, p ∈ s.pending) ∧
+    DownOK (run v s ops).2 ∧ s.nextId ≤ (run v s ops).1.nextId ∧
     (∀ i, s.nextId ≤ i → i < (run v s ops).1.nextId → Event.errback i .notConnected ∈ (run v s ops).2) := by
   intro ops
   induction ops with
   | nil =>
-    intro s hc hp _
-    refine ⟨hc, hp, ?_, Nat.le_refl _, ?_⟩
+    intro s evs _ hc _
+    refine ⟨hc, fun p hp => hp, ?_, Nat.le_refl _, ?_⟩
     · intro p hp'; simp [run] at hp'
     · intro i h1 h2; simp only [run] at h2; omega
   | cons op ops ih =>
-    intro s hc hp hops
-    obtain ⟨a1, a2, a3, a4, a5⟩ := down_step (v := v) hc hp op (hops op (by simp))
-    obtain ⟨b1, b2, b3, b4, b5⟩ := ih _ a1 a2 (fun o ho => hops o (by simp [ho]))
+    intro s evs h hc hops
+    obtain ⟨a1, a2, a3, a4, a5⟩ := down_step (v := v) h hc op (hops op (by simp))
+    obtain ⟨b1, b2, b3, b4, b5⟩ := ih _ _ (inv_step op h) a1 (fun o ho => hops o (by simp [ho]))
     simp only [run]
-    refine ⟨b1, b2, downOK_append a3 b3, by omega, ?_⟩
+    refine ⟨b1, fun p hp => a2 p (b2 p hp), downOK_append a3 b3, by omega, ?_⟩
     intro i h1 h2
     simp only [List.mem_append]
     by_cases hi : i < (step v s op).1.nextId
